@@ -244,6 +244,9 @@ func vfTransferClasses(sc *vfE1, s *vfSim, out *vfE1Out, c *vfCase) (dataFault, 
 	if sc.Cfg[0].ZC || sc.Cfg[1].ZC {
 		c.class("zero-checksum")
 	}
+	if sc.SeqPreset != 0 {
+		c.class("ssn-mid-near-wrap")
+	}
 	for i := 0; i < 2; i++ {
 		w := vfWindowFor(sc.Cfg[i].RBuf)
 		if d := uint32(0) - sc.Cfg[i].TSN; d <= 2*w && d > 0 {
